@@ -551,7 +551,7 @@ func drawPlan(rnd *vkit.Rand) tickerPlan {
 // coincides with the action on every case.
 
 func gateCases(r *vkit.Report) {
-	n := r.Scale(320, 1200)
+	n := r.Scale(320, 1000)
 	r.Cases("gate", n, 1, func(c *vkit.Case) {
 		rnd := c.Rand
 		p := tickerPlan{}
@@ -592,7 +592,7 @@ func gateCases(r *vkit.Report) {
 // 100-800 us at ticker.fire.
 
 func stressCases(r *vkit.Report) {
-	n := r.Scale(120, 480)
+	n := r.Scale(100, 400)
 	const lives = 64
 	r.Cases("stress", n, 1, func(c *vkit.Case) {
 		rnd := c.Rand
